@@ -62,6 +62,7 @@ func main() {
 			}
 		}
 	}
+	vc.CurProp = *prop
 	r := &vc.Run{Prop: *prop, Tier: *tier, Repo: *repo, Verif: *verif, Seed: seed, Timeout: to, Verbose: *verbose, OnlyFunc: *only, UpdateLedger: *update}
 	code := run(r)
 	r.WallS = time.Since(t0).Seconds()
